@@ -504,6 +504,7 @@ def setup():
 def selftest(ids):
     """Runs each property's quick check against its mutants (overlay replacements); every mutant must be reported."""
     mdir = os.path.join(VERIF, "mutants")
+    os.makedirs(BUILD, exist_ok=True)
     bad = 0
     for prop in sorted(os.listdir(mdir)):
         if ids and prop not in ids:
